@@ -9,7 +9,15 @@ sys.path.insert(0, os.path.join(os.path.dirname(__file__), ".."))
 from cv import algos, graphs  # noqa: E402
 from cv.core import VERIF, Check  # noqa: E402
 
-THEOREMS = []
+THEOREMS = [
+    "Cv.C04.walk_inv",
+    "Cv.C04.walk_iff_path",
+    "Cv.C04.restorePath_spec",
+    "Cv.C04.findPathTo_spec",
+    "Cv.C04.revertPathM_spec",
+    "Cv.C04.findPathFrom_spec",
+    "Cv.C04.findPathFrom_valid",
+]
 
 
 def gen_graph(ck, cap):
